@@ -259,6 +259,10 @@ REG.spec("ref", ref_smt, lambda c, i: i, "the object of heap class c with identi
 def idof_smt(I, ref):
     from .sym import SRef, SInt
 
+    if isinstance(ref, S.SObj):
+        from .models import key_of
+
+        return SInt(key_of(I, ref))  # a record object: one abstract identity per allocation
     if not isinstance(ref, SRef):
         raise Unsupported("idof(ref): heap reference expected")
     return SInt(ref.id)
